@@ -2,6 +2,7 @@ package c07
 
 import (
 	"bytes"
+	"encoding/base64"
 	"encoding/json"
 	"errors"
 	"fmt"
@@ -228,6 +229,37 @@ func TestEncDecryptHostileManifests(t *testing.T) {
 				c := encCase{Doc: append(refenc.Header(fk, []byte(ml)), vk.Expand(5, 40)...), FileKey: fk, Unwrap: u, UnwrapLen: ul, FailAt: -1, Note: fmt.Sprintf("hostile-manifest#%d", i)}
 				settle(t, sec, runEncDecrypt(c), vk.FP("hostile", i, u, ul))
 			}
+		}
+	}
+}
+
+// TestEncDecryptHostileMACLines keeps a valid scheme line and manifest and replaces the MAC line: every length of
+// base64 text (with and without padding, standard and URL-safe alphabet), decoding to fewer, exactly and more bytes than
+// a SHA-256 MAC, and non-base64 text; with every unwrap behaviour (the MAC is checked even if the key could not be unwrapped).
+func TestEncDecryptHostileMACLines(t *testing.T) {
+	sec := vk.Sec(t.Name())
+	fk := vk.Expand(11, 32)
+	good := refenc.Header(fk, []byte(hostileManifests[0]))
+	if i := bytes.Index(good, []byte("\n")); i < 0 {
+		t.Fatalf("harness: reference header has no lines")
+	}
+	lines := bytes.SplitN(good, []byte("\n"), 4)
+	if len(lines) < 3 {
+		t.Fatalf("harness: reference header has %d lines", len(lines))
+	}
+	var macs []string
+	for n := 0; n <= 100; n++ {
+		raw := vk.Expand(uint64(n)+77, n)
+		macs = append(macs, base64.StdEncoding.EncodeToString(raw), base64.RawStdEncoding.EncodeToString(raw), base64.URLEncoding.EncodeToString(raw), strings.Repeat("A", n), strings.Repeat("=", n), strings.Repeat("A", n)+"=")
+	}
+	macs = append(macs, strings.Repeat("A", 65536), strings.Repeat("A", 70000), "\x00", " ", "AAAA AAAA", "AA==AA==", string(lines[2])+"A", string(lines[2])+"====", string(lines[2][:len(lines[2])-1]))
+	for i, m := range macs {
+		doc := append(append(append(append([]byte{}, lines[0]...), '\n'), lines[1]...), '\n')
+		doc = append(append(doc, m...), '\n')
+		doc = append(doc, vk.Expand(5, 40)...)
+		for _, u := range []string{"right", "error", "len"} {
+			c := encCase{Doc: doc, FileKey: fk, Unwrap: u, UnwrapLen: 16, FailAt: -1, Note: fmt.Sprintf("hostile-mac#%d(len %d)", i, len(m))}
+			settle(t, sec, runEncDecrypt(c), vk.FP("hostile-mac", i, u))
 		}
 	}
 }
